@@ -25,14 +25,19 @@ def _alarm(signum, frame):
 
 @contextlib.contextmanager
 def time_limit(seconds):
-    """Raise Timeout inside the block after `seconds` (float) of wall time."""
-    old = signal.signal(signal.SIGALRM, _alarm)
-    signal.setitimer(signal.ITIMER_REAL, seconds)
+    """Raise Timeout inside the block after `seconds` of *CPU time of this process* (robust against a loaded
+    machine), with a wall-clock backstop at 30x for code that blocks without using CPU."""
+    old_p = signal.signal(signal.SIGPROF, _alarm)
+    old_a = signal.signal(signal.SIGALRM, _alarm)
+    signal.setitimer(signal.ITIMER_PROF, seconds)
+    signal.setitimer(signal.ITIMER_REAL, seconds * 30)
     try:
         yield
     finally:
+        signal.setitimer(signal.ITIMER_PROF, 0)
         signal.setitimer(signal.ITIMER_REAL, 0)
-        signal.signal(signal.SIGALRM, old)
+        signal.signal(signal.SIGPROF, old_p)
+        signal.signal(signal.SIGALRM, old_a)
 
 
 def h64(obj):
